@@ -131,7 +131,9 @@ def dag(draw):
             'repeats': repeats,
             # the sources also send an output event that its destination refuses for odd values
             # (EdzedUnknownEvent: reported to the caller, the simulation goes on)
-            'picky': draw(st.booleans())}
+            'picky': draw(st.booleans()),
+            # a block fed by constants only (evaluated once, at the start) and a consumer of it
+            'konst': draw(st.booleans())}
 
 
 def strategy(tier):
@@ -201,6 +203,9 @@ def execute(case):
             for j in case['order']:
                 edzed.FuncBlock(f'c{j}', func=counted(lambda args: sum(args)), unpack=False).connect(
                     *[names[p] for p in case['preds'][j]])
+            if case.get('konst'):
+                edzed.FuncBlock('kc', func=counted(lambda args: sum(args)), unpack=False).connect('k0', 's0')
+                edzed.FuncBlock('k0', func=counted(lambda args: sum(args)), unpack=False).connect(3, edzed.Const(4))
         nblocks = len(list(circuit.getblocks()))
         obs['nblocks'] = nblocks
         limit[0] = 50 * nblocks
@@ -279,6 +284,9 @@ def execute(case):
                          f"(paths {path_total(case['nsrc'], case['preds'])}, blocks {nblocks}) aborted: {err[1]}")
             else:
                 names = [f's{i}' for i in range(case['nsrc'])] + [f'c{j}' for j in range(len(case['preds']))]
+                if case.get('konst') and (out['k0'] != 7 or out['kc'] != 7 + out['s0']):
+                    res.fail('C10.idle_inconsistent', f"{tag}: k0 = sum(3, 4) outputs {out['k0']}, "
+                             f"kc = sum(k0, s0) outputs {out['kc']} with s0 = {out['s0']}")
                 for j, ps in enumerate(case['preds']):
                     if out[f'c{j}'] != sum(out[names[p]] for p in ps):
                         res.fail('C10.idle_inconsistent', f"{tag}: c{j} = {out[f'c{j}']} but its inputs sum to "
